@@ -307,19 +307,25 @@ class PathToken(TokenT):
     source: str = field(repr=False)
 
     def __str__(self) -> str:
+        return self._to_string(nested=False)
+
+    def _to_string(self, *, nested: bool) -> str:
+        # Between brackets a path starts with a bare name, whatever the name is.
         it = iter(self.path)
         root = next(it)
         if isinstance(root, str):
-            if RE_PROPERTY.fullmatch(root) and root not in _RESERVED_WORDS:
+            if RE_PROPERTY.fullmatch(root) and (nested or root not in _RESERVED_WORDS):
                 buf = [root]
             else:
                 buf = [f"[{_quote_escaped(root)}]"]
+        elif isinstance(root, PathToken):
+            buf = [f"[{root._to_string(nested=True)}]"]
         else:
             buf = [f"[{root}]"]
 
         for segment in it:
             if isinstance(segment, PathToken):
-                buf.append(f"[{segment}]")
+                buf.append(f"[{segment._to_string(nested=True)}]")
             elif isinstance(segment, str):
                 if RE_PROPERTY.fullmatch(segment):
                     buf.append(f".{segment}")
